@@ -5,6 +5,7 @@ All statements are at one (arbitrary) pixel `(x, y)`, for every rational input.
 -/
 import PsdVerif.Lemmas.CompositeTree
 import PsdVerif.Lemmas.CompositeView
+import PsdVerif.Lemmas.CompositeSim
 
 namespace PsdVerif.C13
 open PsdVerif PsdVerif.Composite
@@ -125,12 +126,59 @@ theorem passthrough_group_transparent_inside
   rw [hg, hi]
   exact hex
 
+/-- Pass-through group, pixel of `V` outside the group's box: the group contributes a zero source,
+and so does every child (they lie inside the group's box). -/
+theorem passthrough_group_transparent_outside
+    (B : Mode → Color → Color → Color) (hB : BOk B) (V : Rect) (x y : Int) (hxy : V.contains x y = true)
+    (st : PState) (hst : Composite.Inv st)
+    (pr : Props) (children : List Node) (hp : PlainPassThrough B pr)
+    (hV : intersect V pr.bbox ≠ Rect.zero) (hin : ¬ (intersect V pr.bbox).contains x y = true)
+    (hch : listOk children) (hnko : ∀ n ∈ children, n.props.knockout = false)
+    (hbox : ∀ n ∈ children, ∀ px py, n.props.bbox.contains px py = true → pr.bbox.contains px py = true) :
+    Same (applyNode B V x y false st (.group pr true children [])) (applyList B V x y st children) := by
+  have hin' : (intersect V pr.bbox).contains x y = false := by simpa using hin
+  have hprout : pr.bbox.contains x y = false := by
+    rw [contains_intersect hV, hxy, Bool.true_and] at hin'; exact hin'
+  have hg : Same (applyNode B V x y false st (.group pr true children [])) st := by
+    apply transparent_noop B V x y st hst _ (by simpa [Node.props] using hp.noKnockout)
+    exact nodeGen_zero_outside B V x y hxy _ (by simpa [Node.props] using hprout)
+  have hi : Same (applyList B V x y st children) st := by
+    rw [applyList_eq_runGens B V x y st children hnko]
+    apply runGens_zero hst _ (listGens_ok hB V x y children hch)
+    intro g hg
+    -- every generator of the list comes from a child, whose box misses the pixel
+    have : ∀ (ns : List Node), (∀ n ∈ ns, n.props.bbox.contains x y = false) →
+        ∀ g ∈ listGens B V x y ns, Gen.Zero g := by
+      intro ns
+      induction ns with
+      | nil => intro _ g hg; simp [listGens] at hg
+      | cons n ns ih =>
+        intro hns g hg
+        unfold listGens at hg
+        split at hg
+        · exact ih (fun m hm => hns m (List.mem_cons_of_mem _ hm)) g hg
+        · rcases List.mem_cons.1 hg with rfl | hg'
+          · exact nodeGen_zero_outside B V x y hxy n (hns n (List.mem_cons_self ..))
+          · exact ih (fun m hm => hns m (List.mem_cons_of_mem _ hm)) g hg'
+    apply this children _ g hg
+    intro n hn
+    cases hc : n.props.bbox.contains x y with
+    | false => rfl
+    | true => have := hbox n hn x y hc; rw [hprout] at this; exact absurd this (by simp)
+  -- Same is symmetric in the fields we need
+  refine ⟨hg.sg.trans hi.sg.symm, hg.ag.trans hi.ag.symm, hg.a.trans hi.a.symm, hg.a0.trans hi.a0.symm,
+    hg.c0.trans hi.c0.symm, ?_⟩
+  intro ha ch
+  have hsa : st.a ≠ 0 := by rw [← hi.a]; exact ha
+  rw [hg.c hsa ch, hi.c hsa ch]
+
+
 /-- **Pass-through group.** For children that lie inside the group's box (so that they meet the
 group's viewport `V ∩ bbox` and the outer viewport `V` in the same rectangle), at every pixel of
 `V`: compositing the group equals compositing its children inline. -/
 theorem passthrough_group_transparent
     (B : Mode → Color → Color → Color) (hB : BOk B) (V : Rect) (x y : Int) (hxy : V.contains x y = true)
-    (st : PState) (hst : Inv st)
+    (st : PState) (hst : Composite.Inv st)
     (pr : Props) (children : List Node) (hp : PlainPassThrough B pr)
     (hV : intersect V pr.bbox ≠ Rect.zero)
     (hch : listOk children) (hnko : ∀ n ∈ children, n.props.knockout = false)
@@ -143,41 +191,112 @@ theorem passthrough_group_transparent
     obtain ⟨h1, h2, h3, h4, h5, h6⟩ :=
       passthrough_group_transparent_inside B hB V x y st hst pr children hp hV hin hch hnko hview
     exact ⟨h1, h2, h3, h4, h5, h6⟩
-  · -- the pixel is outside the group's box: the group contributes a zero source, and so does every child
-    have hin' : (intersect V pr.bbox).contains x y = false := by simpa using hin
-    have hprout : pr.bbox.contains x y = false := by
-      rw [contains_intersect hV, hxy, Bool.true_and] at hin'; exact hin'
-    have hg : Same (applyNode B V x y false st (.group pr true children [])) st := by
-      apply transparent_noop B V x y st hst _ (by simpa [Node.props] using hp.noKnockout)
-      exact nodeGen_zero_outside B V x y hxy _ (by simpa [Node.props] using hprout)
-    have hi : Same (applyList B V x y st children) st := by
-      rw [applyList_eq_runGens B V x y st children hnko]
-      apply runGens_zero hst _ (listGens_ok hB V x y children hch)
-      intro g hg
-      -- every generator of the list comes from a child, whose box misses the pixel
-      have : ∀ (ns : List Node), (∀ n ∈ ns, n.props.bbox.contains x y = false) →
-          ∀ g ∈ listGens B V x y ns, Gen.Zero g := by
-        intro ns
-        induction ns with
-        | nil => intro _ g hg; simp [listGens] at hg
-        | cons n ns ih =>
-          intro hns g hg
-          unfold listGens at hg
-          split at hg
-          · exact ih (fun m hm => hns m (List.mem_cons_of_mem _ hm)) g hg
-          · rcases List.mem_cons.1 hg with rfl | hg'
-            · exact nodeGen_zero_outside B V x y hxy n (hns n (List.mem_cons_self ..))
-            · exact ih (fun m hm => hns m (List.mem_cons_of_mem _ hm)) g hg'
-      apply this children _ g hg
-      intro n hn
-      cases hc : n.props.bbox.contains x y with
-      | false => rfl
-      | true => have := hbox n hn x y hc; rw [hprout] at this; exact absurd this (by simp)
-    -- Same is symmetric in the fields we need
-    refine ⟨hg.sg.trans hi.sg.symm, hg.ag.trans hi.ag.symm, hg.a.trans hi.a.symm, hg.a0.trans hi.a0.symm,
-      hg.c0.trans hi.c0.symm, ?_⟩
-    intro ha ch
-    have hsa : st.a ≠ 0 := by rw [← hi.a]; exact ha
-    rw [hg.c hsa ch, hi.c hsa ch]
+  · exact passthrough_group_transparent_outside B hB V x y hxy st hst pr children hp hV hin hch hnko hbox
+
+/-! ### the general laws, modulo colour under zero alpha (`Sim`) -/
+
+/-- **Sub-viewport = crop.** For any two viewports containing the pixel (e.g. a sub-viewport and the
+full canvas), any backdrop and any well-formed stack: the composited shape and alpha at the pixel
+are equal, and so is the colour wherever the alpha is not zero. -/
+theorem viewport_is_crop (B : Mode → Color → Color → Color) (V' V : Rect) (x y : Int)
+    (h' : V'.contains x y = true) (h : V.contains x y = true) (color : Color) (alpha : Rat)
+    (hc : ColorOk color) (ha : Unit01 alpha) (layers : List Node) (hl : listOk layers) :
+    let r' := compositeDoc B V' x y color alpha layers
+    let r := compositeDoc B V x y color alpha layers
+    r'.2.1 = r.2.1 ∧ r'.2.2 = r.2.2 ∧ (r.2.2 ≠ 0 → r'.1 = r.1) := by
+  intro r' r
+  have i := inv_init hc ha false
+  have hs := applyList_sim B V' V x y h' h _ _ (Sim.refl _) i i layers hl
+  have it := applyList_inv B V x y _ i layers hl
+  exact ⟨hs.sg, hs.ag, fun hne => finishColor_sim hs it hne⟩
+
+theorem applyList_append (B : Mode → Color → Color → Color) (V : Rect) (x y : Int) (st : PState) (a b : List Node) :
+    applyList B V x y st (a ++ b) = applyList B V x y (applyList B V x y st a) b := by
+  induction a generalizing st with
+  | nil => simp [applyList]
+  | cons n a ih => simp only [List.cons_append, applyList]; exact ih _
+
+theorem listOk_append {a b : List Node} : listOk (a ++ b) ↔ listOk a ∧ listOk b := by
+  induction a with
+  | nil => simp [listOk]
+  | cons n a ih => simp only [List.cons_append, listOk, ih, and_assoc]
+
+/-- **Inserting a no-op layer anywhere in a stack changes nothing observable**: if the layer leaves
+the state it meets indistinguishable (hidden: `hidden_noop`; outside the viewport:
+`outside_viewport_noop`; not covering the pixel: `applyNode_outside_sim`; transparent there:
+`transparent_noop`), then the whole stack composites to the same shape, alpha and colour
+(where alpha ≠ 0), whatever comes before and after it. -/
+theorem noop_insert (B : Mode → Color → Color → Color) (V : Rect) (x y : Int) (hV : V.contains x y = true)
+    (st : PState) (hst : Composite.Inv st) (pre post : List Node) (n : Node)
+    (hpre : listOk pre) (hn : nodeOk n) (hpost : listOk post)
+    (hnoop : ∀ s, Composite.Inv s → Sim (applyNode B V x y false s n) s) :
+    Sim (applyList B V x y st (pre ++ n :: post)) (applyList B V x y st (pre ++ post)) := by
+  rw [applyList_append, applyList_append]
+  have ip := applyList_inv B V x y st hst pre hpre
+  have e : applyList B V x y (applyList B V x y st pre) (n :: post)
+      = applyList B V x y (applyNode B V x y false (applyList B V x y st pre) n) post := by
+    simp only [applyList]
+  rw [e]
+  exact applyList_sim B V V x y hV hV _ _ (hnoop _ ip) (applyNode_inv B V x y false _ ip n hn) ip post hpost
+
+/-- a layer whose box does not cover the pixel is such a no-op -/
+theorem outside_pixel_is_noop (B : Mode → Color → Color → Color) (V : Rect) (x y : Int) (hV : V.contains x y = true)
+    (n : Node) (hout : n.props.bbox.contains x y = false) :
+    ∀ s, Composite.Inv s → Sim (applyNode B V x y false s n) s :=
+  fun s hs => applyNode_outside_sim B V x y hV false s hs n hout
+
+/-- what `apply` does with a plain pass-through group at a pixel inside the group's viewport -/
+theorem plain_group_apply (B : Mode → Color → Color → Color) (V : Rect) (x y : Int) (st : PState)
+    (pr : Props) (children : List Node) (hp : PlainPassThrough B pr)
+    (hV : intersect V pr.bbox ≠ Rect.zero) (hin : (intersect V pr.bbox).contains x y = true) :
+    applyNode B V x y false st (.group pr true children []) =
+      applySource blNormal st
+        (finishColor (applyList B (intersect V pr.bbox) x y (PState.init st.c st.a false) children))
+        (applyList B (intersect V pr.bbox) x y (PState.init st.c st.a false) children).sg
+        (applyList B (intersect V pr.bbox) x y (PState.init st.c st.a false) children).ag false := by
+  unfold applyNode
+  simp only [hp.visible, hV, hp.notClipped, hp.noKnockout, hin, Bool.not_true, Bool.false_eq_true, if_false,
+    if_true, Bool.not_false, Bool.true_and, List.isEmpty_nil]
+  unfold finishApply maskFactors
+  simp only [hp.noMask, Bool.false_eq_true, if_false, hp.opacity, hp.fill, hp.normal, hp.noKnockout, mul_one]
+
+/-- **Pass-through groups are transparent to the result — general form.** No assumption on how the
+children meet the viewports: at every pixel of `V`, a full-opacity, unmasked pass-through group
+(not knocked out, not clipped, no clip layers of its own) whose non-knockout children lie inside
+its box composites exactly like its children inline: same shape and alpha, same colour wherever
+alpha is not zero, and the same for everything composited afterwards (`Sim` is a congruence). -/
+theorem passthrough_group_transparent_general
+    (B : Mode → Color → Color → Color) (hB : BOk B) (V : Rect) (x y : Int) (hxy : V.contains x y = true)
+    (st : PState) (hst : Composite.Inv st)
+    (pr : Props) (children : List Node) (hp : PlainPassThrough B pr)
+    (hV : intersect V pr.bbox ≠ Rect.zero)
+    (hch : listOk children) (hnko : ∀ n ∈ children, n.props.knockout = false)
+    (hbox : ∀ n ∈ children, ∀ px py, n.props.bbox.contains px py = true → pr.bbox.contains px py = true) :
+    Sim (applyNode B V x y false st (.group pr true children [])) (applyList B V x y st children) := by
+  by_cases hin : (intersect V pr.bbox).contains x y = true
+  · rw [plain_group_apply B V x y st pr children hp hV hin]
+    have i0 := inv_init hst.c hst.a false
+    -- the children inside the group's viewport vs inside V: indistinguishable
+    have hsub := applyList_sim B (intersect V pr.bbox) V x y hin hxy _ _ (Sim.refl _) i0 i0 children hch
+    have is2 := applyList_inv B V x y _ i0 children hch
+    rw [hsub.sg, hsub.ag]
+    have h1 : Sim
+        (applySource blNormal st (finishColor (applyList B (intersect V pr.bbox) x y (PState.init st.c st.a false) children))
+          (applyList B V x y (PState.init st.c st.a false) children).sg
+          (applyList B V x y (PState.init st.c st.a false) children).ag false)
+        (applySource blNormal st (finishColor (applyList B V x y (PState.init st.c st.a false) children))
+          (applyList B V x y (PState.init st.c st.a false) children).sg
+          (applyList B V x y (PState.init st.c st.a false) children).ag false) :=
+      applySource_sim blNormal (Sim.refl st) (fun hne => finishColor_sim hsub is2 hne) false
+    apply h1.trans
+    -- and leaving the group = inline (exact algebra)
+    have hgens := listGens_ok hB V x y children hch
+    have hcpl := coupled_run (listGens B V x y children) hgens (coupled_init hst)
+    have hex := passthrough_exit hcpl hst
+    rw [applyList_eq_runGens B V x y st children hnko, applyList_eq_runGens B V x y _ children hnko]
+    obtain ⟨e1, e2, e3, e4, e5, e6⟩ := hex
+    exact ⟨e1, e2, e3, e4, fun hne => funext (e6 hne), fun _ => e5⟩
+  · have h := passthrough_group_transparent_outside B hB V x y hxy st hst pr children hp hV hin hch hnko hbox
+    exact ⟨h.sg, h.ag, h.a, h.a0, fun hne => funext (h.c hne), fun _ => h.c0⟩
 
 end PsdVerif.C13
